@@ -79,6 +79,12 @@ PROPS = {
         'level_note': "Trusted: Lean kernel; harness. Not modelled: that the Go runtime fires the deadline on time (the harness only observes the deadline handed to the lister, +-60 ms).",
         'rule': "namespace updates that trigger the dry run; populations 0-12 and 2999/3000/3001/3100; expiry index none / 0..n+1 / around the cap; request deadlines none, 0.2-10 s. distinct_nontrivial = distinct requests with a non-plain response",
     },
+    'C15': {
+        'race': True,
+        'level_text': "Theorems C15_sequence / C15_interleaving (the model controller's only state, the shared response cells, is never written; every history and interleaving gives each request its solo response) and the regenerated structural obligations C15_responses_fresh (F6: every store to an AdmissionResponse field in package admission goes through a fresh response; shared ones are written by init only) and C15_no_global_state (F8). One real Admission handles random request batches sequentially and from 16 goroutines under the race detector; every response is DeepEqual-compared with a fresh controller's.",
+        'level_note': "Trusted: Lean kernel; factx's go/ssa origin analysis; harness. The model is stateless by construction, so the substance of the tie is the structural facts plus the runtime comparison. Partial: data-race freedom is observed, not proved.",
+        'rule': "batches of 48 mixed pod / controller / namespace requests over a 6-namespace cluster (several namespaces share an effective policy, some with fail-open label typos), real evaluator; 2 sequential passes in random order + 16 concurrent passes per batch. distinct_nontrivial = requests",
+    },
     'C16': {
         'race': True,
         'level_text': "Theorems C16_uid (interleaving machine of HandleValidate: for every number of in-flight reviews and every schedule each answer carries its own uid, in the `copies` variant), C16_variant_is_copies (fact F6: the code stores the UID through a fresh object), C16_buggy_witness (the pre-fix variant fails on a 5-step schedule), C16_malformed / C16_wellformed (request screening), C16_limit. The real handler is driven over HTTP by 16 concurrent clients under the race detector, each verdict compared with a fresh admission controller's, plus every malformed class.",
